@@ -47,50 +47,66 @@ def maximal(replays):
 
 def check_family(pid, tier, fam, model_specs, profiles, configs, nrand, assumptions, extra_sessions=None,
                  chunks=10, post=None):
-    """model_specs: [(model name, cfg, quick maxlen, thorough maxlen)]
-       profiles: [generator profile dict]; nrand: (quick, thorough) sessions per profile
-       configs: [(mode, env)]"""
+    return check_groups(pid, tier, [dict(fam=fam, model_specs=model_specs, profiles=profiles, configs=configs,
+                                         nrand=nrand, extra=extra_sessions)], assumptions, chunks=chunks, post=post)
+
+
+def check_groups(pid, tier, groups, assumptions, chunks=10, post=None, module="EggAbs_Trace"):
+    """groups: [dict(fam, model_specs=[(model name, cfg, quick maxlen, thorough maxlen)],
+                     profiles=[generator profile], nrand=(quick, thorough) sessions per profile,
+                     configs=[(mode, env)], extra=[sessions])]"""
     t0 = time.time()
     V = core.Verdict(pid)
     states = trans = 0
-    sessions = []
-    detail = {"models": {}, "configs": [sess.mode_tag(m, e) for m, e in configs]}
-    sample = None
-    for name, cfg, qlen, tlen in model_specs:
-        res, p, m, replays = model_phase(V, pid, name, cfg, qlen if tier == "quick" else tlen)
-        states += res.distinct
-        trans += len(replays)
-        mx = maximal(replays)
-        detail["models"][name] = dict(states=res.distinct, transitions=len(replays), replayed_histories=len(mx),
-                                      maxlen=qlen if tier == "quick" else tlen, invariants=cfg)
-        for k, r in enumerate(mx):
-            sessions.append(models.replay_session(p, m, r, "%s-%s-%d" % (fam, name, k)))
-    n = nrand[0] if tier == "quick" else nrand[1]
-    for pi, prof in enumerate(profiles):
-        g = sessgen.Gen(core.seed() * 1000 + pi, prof)
-        for k in range(n):
-            sessions.append(g.session("%s-r%d-%d" % (fam, pi, k)))
-    if extra_sessions:
-        sessions += extra_sessions
-    results = sess.run_family(pid + "_" + fam, sessions, configs, chunks=chunks)
-    nb = sess.report(V, fam, results)
+    detail = {"models": {}, "groups": {}}
+    all_results = []
+    nsess = 0
+    nb = 0
+    for g in groups:
+        fam, configs = g["fam"], g["configs"]
+        sessions = []
+        for name, cfg, qlen, tlen in g.get("model_specs", []):
+            res, p, m, replays = model_phase(V, pid, name, cfg, qlen if tier == "quick" else tlen)
+            states += res.distinct
+            trans += len(replays)
+            mx = maximal(replays)
+            detail["models"][name] = dict(states=res.distinct, transitions=len(replays), replayed_histories=len(mx),
+                                          maxlen=qlen if tier == "quick" else tlen, invariants=cfg)
+            for k, r in enumerate(mx):
+                sessions.append(models.replay_session(p, m, r, "%s-%s-%d" % (fam, name, k)))
+        n = g["nrand"][0] if tier == "quick" else g["nrand"][1]
+        for pi, prof in enumerate(g.get("profiles", [])):
+            gen = sessgen.Gen(core.seed() * 1000 + pi, prof)
+            for k in range(n):
+                sessions.append(gen.session("%s-r%d-%d" % (fam, pi, k)))
+        if g.get("extra"):
+            sessions += g["extra"](tier) if callable(g["extra"]) else g["extra"]
+        results = sess.run_family(pid + "_" + fam, sessions, configs, chunks=chunks, module=g.get("module", module))
+        nb += sess.report(V, fam, results)
+        if g.get("post"):
+            g["post"](V, results, sessions, detail)
+        all_results += results
+        nsess += len(sessions) * len(configs)
+        detail["groups"][fam] = dict(sessions=len(sessions), configs=[sess.mode_tag(m, e) for m, e in configs])
     if post:
-        post(V, results, sessions, detail)
+        post(V, all_results, detail)
+    results = all_results
     nev = sum(len(ev) for _, ev, _, _ in results)
-    nsess = len(sessions) * len(configs)
     dn = len({json.dumps(e["tabs"], sort_keys=True) for _, ev, _, _ in results for e in ev
               if e["e"] == "cmd" and sum(1 for t in e["tabs"] if t) >= 2})
     ev0 = results[0][1]
-    st = next(i for i, e in enumerate(ev0) if e["e"] == "decl" and "-r" in e["id"]) if any(e["e"] == "decl" and "-r" in e["id"] for e in ev0) else 0
+    rs = [i for i, e in enumerate(ev0) if e["e"] == "decl" and "-r" in e["id"]]
+    st = rs[0] if rs else 0
     samp = [e.get("text") + " => " + e.get("res") for e in ev0[st + 1: st + 9] if e["e"] == "cmd"]
-    detail.update(sessions=len(sessions), events=nev, bad_lines=nb,
+    detail.update(events=nev, bad_lines=nb,
                   kinds={k: sum(1 for _, ev, _, _ in results for e in ev if e["e"] == "cmd" and e["c"]["k"] == k)
-                         for k in ("ins", "union", "set", "subsume", "delete", "run", "check", "push", "pop", "rule", "bad")})
+                         for k in ("ins", "union", "set", "subsume", "delete", "run", "check", "push", "pop", "rule", "bad")},
+                  failed_commands=sum(1 for _, ev, _, _ in results for e in ev if e["e"] == "cmd" and e["res"] != "ok" and e["c"]["k"] != "check"))
     coverage = dict(states=max(states, 1), transitions=max(trans, 1), traces_validated_against_impl=nsess,
                     samples=[dict(kind="validated session (first commands)", commands=samp)],
                     evaluations=nsess, distinct_nontrivial=dn,
                     rule="sessions = maximal histories of the transition cover of MC_EggAbs on each model program + seeded random sessions, "
-                         "each run under every configuration; distinct_nontrivial = distinct logged raw databases with >= 2 non-empty tables",
+                         "each run under every configuration of its group; distinct_nontrivial = distinct logged raw databases with >= 2 non-empty tables",
                     exhaustive=False, detail=detail)
     rc = V.finish()
     core.write_evidence(pid, tier, "model_checking", coverage, time.time() - t0, len(V.violations), assumptions)
